@@ -1,27 +1,33 @@
 import Driver.Util
 import Driver.Cmd.Trace
 import Driver.Cmd.Filters
+import Driver.Cmd.Container
 import KdVerif.Model.EndToEnd
 open KdVerif KdVerif.Trace KdVerif.TracePipeline
 namespace Driver.EndToEnd
 
 def bit (s : String) (i : Nat) : Bool := (s.toList.getD i '0') == '1'
 
-/-- `e2e <codes> <tid|N> <classes> <subclasses> <process hex|N> <show bits: timestamp name funcqual tid process args>
-    <file hex>` : the lines of `formatted_traces(BytesIO(file), codes)` (colour off) and the exception that ended them. -/
-def cmdE2E : Cmd
-  | [codes, tid, cls, subs, proc, sh, file] =>
+def run (codes tid cls subs proc sh pl file : String) : String :=
     match Driver.Trace.parseCodes codes, Driver.Filters.optNat tid, parseNatList cls, parseNatList subs,
-          Driver.Filters.optText proc, ofHex (unDash file) with
-    | some cs, some tid, some cls, some subs, some proc, some bytes =>
+          Driver.Filters.optText proc, Driver.Container.parsePlists pl, ofHex (unDash file) with
+    | some cs, some tid, some cls, some subs, some proc, some tbl, some bytes =>
       let env := Driver.Trace.mkEnv cs
       let obj : Obj := { cfg := { filterTid := tid, filterClass := cls, filterSubclass := subs, filterProcess := proc } }
       let show_ : Format.Show := { timestamp := bit sh 0, name := bit sh 1, funcQual := bit sh 2, tid := bit sh 3,
                                    process := bit sh 4, args := bit sh 5 }
-      let (lines, err) := EndToEnd.formattedTraces env obj show_ bytes
+      let (lines, err) := EndToEnd.formattedTraces env obj show_ (Driver.Container.plistOf tbl) bytes
       "ok " ++ (if lines.isEmpty then "-" else " ".intercalate (lines.map hexOfString)) ++
         s!" ;err={match err with | some e => e.name | none => "-"}"
-    | _, _, _, _, _, _ => "bad-op"
+    | _, _, _, _, _, _, _ => "bad-op"
+
+/-- `e2e <codes> <tid|N> <classes> <subclasses> <process hex|N> <show bits: timestamp name funcqual tid process args>
+    [<plists>] <file hex>` : the lines of `formatted_traces(BytesIO(file), codes)` (colour off) and the exception that
+    ended them.  `plists`: the property lists of a version-3 dump as the container commands take them
+    (`Driver/Cmd/Container.lean`: what `plistlib.loads` gives for each payload that loads); absent = `-`. -/
+def cmdE2E : Cmd
+  | [codes, tid, cls, subs, proc, sh, file] => run codes tid cls subs proc sh "-" file
+  | [codes, tid, cls, subs, proc, sh, pl, file] => run codes tid cls subs proc sh pl file
   | _ => "bad-op"
 
 def commands : List (String × Cmd) := [("e2e", cmdE2E)]
